@@ -1108,7 +1108,8 @@ HEAVY = {"pow2_mono", "be_msb", "bytelen_mono", "shr_def", "shr_bound"}     # qu
 
 # optional theories: only obligations of contracts that ask for them get these axioms (keeps every other query small)
 GROUPS = {"shift": {"shr_zero", "shr_shr", "shr_cong", "shr_def", "shr_small", "shr_bound", "be_prefix"},
-          "list": {"llen_nonneg", "lapp_def", "lapp_at", "lrev_len", "lrev_at", "lpadz_len", "lpadz_at", "lcons_len", "lcons_at", "lset_len", "lset_at", "bol_len", "bol_at"}}
+          "list": {"llen_nonneg", "lapp_def", "lapp_at", "lrev_len", "lrev_at", "lpadz_len", "lpadz_at", "lcons_len", "lcons_at", "lset_len", "lset_at", "bol_len", "bol_at"},
+          "b128": {"subid_len_def", "subid_len_unique", "subid_len_bytes", "subid_at"}}
 _OPTIONAL = set().union(*GROUPS.values())
 
 
